@@ -97,18 +97,10 @@ impl EventSource for UnixStreamConnect {
         let io_data = (*self.io_data).clone();
 
         #[cfg(feature = "io_timeout")]
-        let deadline = Some(
-            crate::scheduler::get_scheduler()
-                .get_selector()
-                .add_io_timer(&self.io_data, Duration::from_secs(2)),
-        );
+        crate::scheduler::get_scheduler()
+            .get_selector()
+            .add_io_timer(&self.io_data, Duration::from_secs(2));
         io_data.co.store(co);
-
-        // the timer may have fired before the coroutine was stored
-        #[cfg(feature = "io_timeout")]
-        if io_data.timed_out_while_arming(deadline) {
-            return;
-        }
 
         // there is event, re-run the coroutine
         if io_data.io_flag.load(Ordering::Acquire) != 0 {
